@@ -62,7 +62,7 @@ def _ctx_isinstance(x, classes):
     """opaque source positions are Context objects"""
     if is_sym(x) and any(getattr(c, "name", "") == "Context" for c in classes):
         txt = repr(x)
-        if "ctx_" in txt:
+        if "ctx" in txt:
             return True
     return None
 
